@@ -211,13 +211,26 @@ def run(ctx, F):
     png = F.fn(GOALS + "poll_next_goal")
     # poll_next_goal clears exactly the request it returns: the store of `false` is under *requested == true
     clr = [(bb, pl, t) for (bb, j, pl, t) in stores(png) if const_arg(t) is False]
-    okp = len(clr) == 1 and any(p.val is True for p in guards(png, clr[0][0]))
-    ctx.judge(okp, "C14.goals-under-lock", "poll_next_goal clears only the request it takes", expected="one store of false, under *requested == true",
+    def found_by_find(fn, tree):
+        """The entry comes out of `iter_mut().find(|(_, r)| **r)`: the first entry whose flag is set (idiom equivalent to the loop)."""
+        for s in walk(strip(tree)):
+            if s and s[0] == "call" and last_seg(s[2] or s[1]) == "find" and len(s[3]) == 2 and "requests" in show(s[3][0]):
+                cl = [x for x in walk(s[3][1]) if x and x[0] == "agg" and x[1][0] == "closure" and x[1][1] in F.fns]
+                if len(cl) == 1:
+                    rts = [strip(t2) for _, t2 in F.fns[cl[0][1][1]].flow.return_trees()]
+                    if rts and all(any(y == ("arg", 2) for y in walk(r)) and "Not(" not in show(r) for r in rts):
+                        return True
+        return False
+    okp = len(clr) == 1 and (any(p.val is True for p in guards(png, clr[0][0])) or found_by_find(png, png.flow.place_tree(clr[0][1], clr[0][0], 0)))
+    ctx.judge(okp, "C14.goals-under-lock", "poll_next_goal clears only the request it takes", expected="one store of false, under *requested == true (or on the entry returned by find(|r| *r))",
               found=str([(bb, guard_strs(png, bb)) for bb, _, _ in clr])[:300], where=where(png), key="C14.goals-under-lock|poll-clears-one")
     sr_ = F.fn(GOALS + "set_request")
     sets = [(bb, pl, t) for (bb, j, pl, t) in stores(sr_)]
-    ctx.judge(all(const_arg(t) is True for bb, pl, t in sets if "index_mut" in show(strip(sr_.flow.place_tree(pl, bb, 0)))) and bool(sets), "C14.goals-under-lock",
-              "set_request only ever sets a request", expected="stores true", found=str([show(t) for _, _, t in sets]), where=where(sr_), key="C14.goals-under-lock|set-true")
+    direct = [t for bb, pl, t in sets if "index_mut" in show(strip(sr_.flow.place_tree(pl, bb, 0)))]
+    repl = [c for c in live_calls(sr_) if c.name == "replace" and c.q and c.q.endswith("mem::replace") and "requests" in show(strip(sr_.flow.arg_tree(c, 0)))]
+    oksr = (bool(direct) or bool(repl)) and all(const_arg(t) is True for t in direct) and all(const_arg(sr_.flow.arg_tree(c, 1)) is True for c in repl)
+    ctx.judge(oksr, "C14.goals-under-lock", "set_request only ever sets a request", expected="stores true (directly or with mem::replace(.., true))", found=str([show(t) for t in direct] + [show(strip(sr_.flow.arg_tree(c, 1))) for c in repl]),
+              where=where(sr_), key="C14.goals-under-lock|set-true")
     mr = F.fn(MON + "make_request")
     nt = live_calls(mr, name="notify_work_available")
     okm = len(nt) == 1 and len(sig(mr, nt[0].bb)) == 1 and bool(sig_find(mr, nt[0].bb, r"set_request", True))
